@@ -275,6 +275,9 @@ func runC14(t *testing.T, rng *rand.Rand, rec *sim.Rec, tier string, caseNo int)
 	var pmu sync.Mutex
 	reqSeen := map[[12]byte]int{}
 	dropped := 0
+	heavy := lossy && caseNo%3 == 1
+	lastOnly := map[[12]byte]bool{}
+	lastChance := 0
 	if lossy {
 		w.Net.Plan = func(d *simnet.Dgram) simnet.Fate {
 			pmu.Lock()
@@ -286,6 +289,20 @@ func runC14(t *testing.T, rng *rand.Rand, rec *sim.Rec, tier string, caseNo int)
 			f := simnet.Fate{}
 			if m.Class == wire.ClassRequest {
 				reqSeen[m.TID]++
+				if reqSeen[m.TID] == 1 && heavy && planRng.Intn(8) == 0 {
+					lastOnly[m.TID] = true
+				}
+				if lastOnly[m.TID] {
+					// only the client's last transmission (the 7th, 12.6 s after the first) gets through
+					if reqSeen[m.TID] < 7 {
+						dropped++
+
+						return simnet.Fate{Drop: true}
+					}
+					lastChance++
+
+					return f
+				}
 				if reqSeen[m.TID] <= 2 && planRng.Intn(10) < 3 {
 					dropped++
 
@@ -506,6 +523,7 @@ func runC14(t *testing.T, rng *rand.Rand, rec *sim.Rec, tier string, caseNo int)
 	rec.EvN("virtual-minutes", int(time.Since(start)/time.Minute))
 	pmu.Lock()
 	rec.EvN("control-datagrams-dropped", dropped)
+	rec.EvN("transactions-saved-by-their-last-transmission", lastChance)
 	pmu.Unlock()
 	if staleWindow {
 		// close inside the window in which the client's nonce is older than an hour and no periodic
